@@ -40,6 +40,10 @@ func (d *wrappedStringDecoder) DecodeStream(s *Stream, depth int64, p unsafe.Poi
 		}
 		return nil
 	}
+	if len(bytes) > 0 && isWhiteSpace[bytes[0]] {
+		// the quoted text has to be the value and nothing else
+		return errors.ErrInvalidCharacter(bytes[0], "string-wrapped value", s.totalOffset())
+	}
 	b := make([]byte, len(bytes)+1)
 	copy(b, bytes)
 	end, err := d.dec.Decode(&RuntimeContext{Buf: b, Option: s.Option}, 0, depth, p)
@@ -63,6 +67,10 @@ func (d *wrappedStringDecoder) Decode(ctx *RuntimeContext, cursor, depth int64, 
 			*(*unsafe.Pointer)(p) = nil
 		}
 		return c, nil
+	}
+	if len(bytes) > 0 && isWhiteSpace[bytes[0]] {
+		// the quoted text has to be the value and nothing else
+		return 0, errors.ErrInvalidCharacter(bytes[0], "string-wrapped value", c)
 	}
 	bytes = append(bytes, nul)
 	oldBuf := ctx.Buf
